@@ -658,8 +658,9 @@ def run_property(mod, tier, seed, only=None):
             known_findings_seen=[k for k in known_hits], samples=(samples + xc_samples) or [dict(note="no solver-discharged sample recorded")],
             cases_crosschecked_on_float_code=xc_ok, crosscheck_skipped=xc_skipped,
             traces_validated_against_impl=xc_ok, states=max(1, paths_total), transitions=max(1, n_obl),
-            evaluations=n_obl, distinct_nontrivial=n_unsat,
-            rule="one obligation = one scalar entry of one clause on one path of one case; non-trivial = needed a solver call (not syntactically identical)",
+            evaluations=n_obl, distinct_nontrivial=max(0, n_obl - n_triv),
+            rule="one obligation = one scalar entry of one clause on one path of one case; non-trivial = needed a solver call (not syntactically identical), "
+                 "whatever its outcome (unsat / model / undecided within the budget: see discharged_by_solver_unsat, sat_models, inconclusive)",
         ),
         assumptions=meta.get("assumptions", []),
         wall_s=round(wall, 1), violations=len(violations),
